@@ -79,6 +79,11 @@ PYTYPES = {"Leaf": faults.Leaf, "Leaf2": faults.Leaf2, "KeyLeaf": faults.KeyLeaf
 
 def source(plan):
     ts = TYPESETS[plan["types"]]
+    late = plan.get("late_types") and plan["types"] == "leaf"
+    if late:
+        # the whole return annotation is a string over names that only exist after the function has been decorated
+        ts = dict(ts, sync=' -> "Generator[YT, ST, RT]"', co=' -> "YT"')
+        ts["async"] = ' -> "AsyncGenerator[YT, ST]"'
     eager = "True" if plan["eager"] else "False"
     opt = ", options=utype.Options(collect_errors=True)" if plan.get("collect") else ""
     ctx = plan.get("ctx", "func")
@@ -170,7 +175,7 @@ async def raw_co(a: Leaf, key: int = 0){ts["co"]}:
     finally:
         log.append(["finally"])
 
-''' + tail
+''' + tail + ("\nYT, ST, RT = Leaf, Leaf2, KeyLeaf\n" if late else "")
 
 
 # ----------------------------------------------------------------------------- generation
@@ -195,7 +200,8 @@ def generate(rng, tier):
     types = rng.choice(["leaf", "leaf", "int", "iter", "none"])
     ts = TYPESETS[types]
     plan = {"prop": ID, "kind": kind, "types": types, "eager": rng.random() < 0.5,
-            "collect": rng.random() < 0.2, "ctx": rng.choice(["func", "func", "func", "static", "class_deco"])}
+            "collect": rng.random() < 0.2, "ctx": rng.choice(["func", "func", "func", "static", "class_deco"]),
+            "late_types": rng.random() < 0.25}
     ncons = rng.choice([1, 1, 2, 3])
     pool = [1, []]
     consumers = []
@@ -720,7 +726,7 @@ def execute(plan):
             res.violate(f"C08|{tag}|body|resumed_after_parse_failure",
                         f"consumer {ci}: the body ran on after a conversion failure: {glog[failure_at:]}")
     if nontriv:
-        res.nontrivial = kernel.digest_of([plan["kind"], plan["eager"], plan["types"], plan.get("collect"), plan.get("ctx"), [[c["body"], c["script"]] for c in cons],
+        res.nontrivial = kernel.digest_of([plan["kind"], plan["eager"], plan["types"], plan.get("collect"), plan.get("ctx"), plan.get("late_types"), [[c["body"], c["script"]] for c in cons],
                                            plan.get("interleave"), plan.get("loop", {}).get("mode"), plan.get("cancel")])
     CTX.clear()
     return res
@@ -749,6 +755,10 @@ def shrink(plan):
     if plan.get("collect"):
         p = copy.deepcopy(plan)
         p["collect"] = False
+        yield p
+    if plan.get("late_types"):
+        p = copy.deepcopy(plan)
+        p["late_types"] = False
         yield p
     if plan.get("ctx", "func") != "func":
         p = copy.deepcopy(plan)
